@@ -382,6 +382,8 @@ class KTr:
                 if f == "abs" and ks == {FLT}:
                     return FLT
                 raise TranslationError(f"{f} on mixed/float arguments")
+            if isinstance(e.func, ast.Name) and e.func.id in getattr(self, "float_fns", {}):
+                return FLT
             if isinstance(e.func, ast.Name) and nfkc(e.func.id) in self.fns:
                 return INT
             if f == "int":
@@ -395,8 +397,8 @@ class KTr:
         return (isinstance(e, ast.UnaryOp) and isinstance(e.op, ast.USub) and isinstance(e.operand, ast.Constant) and e.operand.value == 1) \
             or (isinstance(e, ast.Constant) and e.value == -1)
 
-    def iexpr(self, e):
-        # (-1)**k with a variable exponent: rewrite to a call the integer translator knows nothing about -> handle here
+    def _pw(self, e):
+        """(-1)**k with a variable exponent: rewritten to a call that the wrapped integer translator renders as `(-1)^|k|`"""
         class Pw(ast.NodeTransformer):
             def visit_BinOp(s2, node):
                 node = s2.generic_visit(node)
@@ -413,6 +415,10 @@ class KTr:
                 return f"((-1 : Int) ^ (Int.natAbs {expr(x.args[0])}))"
             return orig(x)
         tr.expr = expr
+        return tr, e2
+
+    def iexpr(self, e):
+        tr, e2 = self._pw(e)
         return tr.expr(e2)
 
     def flit(self, v):
@@ -423,6 +429,11 @@ class KTr:
             return f"(Scalar.ofInt ({int(v)} : Int) : α)"
         if v == 0.5:
             return "(Scalar.half : α)"
+        from fractions import Fraction
+        fr = Fraction(repr(v))
+        if abs(fr.numerator) < 2 ** 53 and fr.denominator < 2 ** 53 and float(fr.numerator) / float(fr.denominator) == v:
+            # the decimal literal is the correctly rounded quotient of two exactly representable integers (IEEE division is correctly rounded)
+            return f"((Scalar.ofInt ({fr.numerator} : Int) : α) /. (Scalar.ofInt ({fr.denominator} : Int) : α))"
         raise TranslationError(f"float literal {v!r}")
 
     @staticmethod
@@ -488,7 +499,8 @@ class KTr:
                 for x in [n.left] + n.comparators:
                     if self.typeof(x) != INT:
                         raise TranslationError(f"non-integer condition {ast.unparse(e)}")
-        return self.int_tr().cond(e)
+        tr, e2 = self._pw(e)
+        return tr.cond(e2)
 
     def bcond(self, e):
         """Bool-valued Lean term for a condition that compares floats (numba's comparisons: false on NaN)"""
@@ -562,6 +574,11 @@ class KTr:
                 return f"(Scalar.sqrt {self.fexpr(e.args[0])})"
             if f == "abs":
                 return f"(Scalar.abs {self.fexpr(e.args[0])})"
+            if isinstance(e.func, ast.Name) and e.func.id in getattr(self, "float_fns", {}) and not e.keywords:
+                for a in e.args:
+                    if self.typeof(a) != INT:
+                        raise TranslationError(f"non-integer argument in {ast.unparse(e)}")
+                return f"({self.float_fns[e.func.id]} (α := α) {' '.join(self.iexpr(a) for a in e.args)})"
         raise TranslationError(f"float expression {ast.unparse(e)}")
 
     def index(self, sub):
@@ -1992,3 +2009,257 @@ def generate_mulkern(fns, gen_dir, write_if_changed):
     out = [MUL_HEADER, f"/-- `_multiplication_helper` (after the construction of the calculators {', '.join(calcs)}):\n\n{src} -/\n" + txt, "end\nend Gen\n"]
     write_if_changed(os.path.join(gen_dir, "MulKern.lean"), "\n".join(out))
     return {k.name: [(p, k.kinds[p]) for p in k.params] + [("w3jcalc", "ext")]}
+
+
+# ---------------------------------------------------------------------------------------------------------------------
+# spherical/recursions/wigner3j.py: Wigner3jCalculator.calculate (with normalize / determine_signs inlined)
+# ---------------------------------------------------------------------------------------------------------------------
+W3J_HEADER = """import SphericalVerif.Gen.W3j
+import SphericalVerif.Model.FlatMem
+/-! GENERATED by vlib/py2lean_kern.py from spherical/recursions/wigner3j.py (`A`, `Xf`, `Zf`, `Yf = B`, `normalize`,
+    `determine_signs`, `Wigner3jCalculator.calculate`) -- do not edit.  Regenerated on every check.
+
+    `calculate` as a function on the flat memory: `workspace` is the object's array, `size` its `_size`; the four views
+    `f, sf (= rf), F_minus, F_plus` are the offsets `0, size, 2*size, 3*size` into it (read off the slice expressions); `normalize`
+    and `determine_signs` are inlined (their parameter names are the argument names); slice statements are element loops; an early
+    `return f` makes the rest of the function the `else` branch; a `for` loop with `break` carries a flag that disables the remaining
+    turns; booleans are the integers 0/1; `raise ValueError` stores 1.0 in the cell `workspace[4*size]`, one past the array (the
+    exception flag; nothing else touches that cell) and ends the function.  Integer helpers are the generated `Gen.B_ret` (`Yf = B`, int64
+    arithmetic and the declared return width) and `Gen.A_radicand_w` (the radicand of `A` in int64 arithmetic). -/
+set_option linter.unusedVariables false
+namespace Gen
+section
+open Scalar
+variable {α : Type} [Scalar α] {φ : Type} [FMem φ α]
+"""
+
+
+def _cps_returns(stmts, fname):
+    """an `if` whose body ends with `return`/`raise` makes the statements after it its else-branch; a trailing `return` is dropped"""
+    out = []
+    for i, s in enumerate(stmts):
+        if isinstance(s, ast.Return):
+            return out
+        if isinstance(s, ast.If):
+            body = _cps_returns(s.body, fname) if any(isinstance(x, (ast.Return,)) for x in ast.walk(ast.Module(body=s.body, type_ignores=[]))) else None
+            ends = bool(s.body) and isinstance(s.body[-1], ast.Return)
+            if ends and not s.orelse:
+                rest = _cps_returns(stmts[i + 1:], fname)
+                out.append(ast.If(test=s.test, body=_cps_returns(s.body[:-1], fname) or [ast.Pass()], orelse=rest or [ast.Pass()]))
+                return out
+            if any(isinstance(x, ast.Return) for b in (s.body, s.orelse) for y in b for x in ast.walk(y)):
+                raise TranslationError(f"{fname}: `return` in a position the translator does not restructure: {ast.unparse(s)[:80]}")
+        if isinstance(s, (ast.For, ast.While)) and any(isinstance(x, ast.Return) for x in ast.walk(s)):
+            raise TranslationError(f"{fname}: `return` inside a loop")
+        out.append(s)
+    return out
+
+
+class _BreakFlags(ast.NodeTransformer):
+    n = 0
+
+    def visit_For(self, node):
+        node = self.generic_visit(node)
+        brks = [x for x in ast.walk(ast.Module(body=node.body, type_ignores=[])) if isinstance(x, ast.Break)]
+        if not brks:
+            return node
+        if len(brks) != 1:
+            raise TranslationError("more than one `break` in a loop")
+        _BreakFlags.n += 1
+        flag = f"brk{_BreakFlags.n}_"
+        # the `break` must be the last statement of a branch of the LAST statement of the loop body (nothing runs after it in that turn)
+        last = node.body[-1]
+        ok = isinstance(last, ast.If) and ((last.body and isinstance(last.body[-1], ast.Break)) or (last.orelse and isinstance(last.orelse[-1], ast.Break)))
+        if not ok:
+            raise TranslationError(f"`break` is not the last action of the loop body: {ast.unparse(node)[:100]}")
+
+        class B(ast.NodeTransformer):
+            def visit_Break(s2, b):
+                return ast.Assign(targets=[ast.Name(id=flag, ctx=ast.Store())], value=ast.Constant(value=1))
+
+            def visit_For(s2, inner):
+                return inner
+        body = [B().visit(x) for x in node.body]
+        guard = ast.If(test=ast.Compare(left=ast.Name(id=flag, ctx=ast.Load()), ops=[ast.Eq()], comparators=[ast.Constant(value=0)]), body=body, orelse=[])
+        return [ast.Assign(targets=[ast.Name(id=flag, ctx=ast.Store())], value=ast.Constant(value=0)),
+                ast.For(target=node.target, iter=node.iter, body=[guard], orelse=[])]
+
+
+class _SnapshotBounds(ast.NodeTransformer):
+    """`range(...)` is evaluated once: bounds that mention a name assigned in the loop body are copied to a fresh local first"""
+    n = 0
+
+    def visit_For(self, node):
+        node = self.generic_visit(node)
+        assigned = {t.id for x in ast.walk(ast.Module(body=node.body, type_ignores=[])) if isinstance(x, (ast.Assign, ast.AugAssign))
+                    for t in ([x.target] if isinstance(x, ast.AugAssign) else x.targets) if isinstance(t, ast.Name)}
+        if not (isinstance(node.iter, ast.Call) and isinstance(node.iter.func, ast.Name) and node.iter.func.id == "range"):
+            return node
+        pre, args = [], []
+        for a in node.iter.args:
+            if {n.id for n in ast.walk(a) if isinstance(n, ast.Name)} & assigned:
+                _SnapshotBounds.n += 1
+                nm = f"bound{_SnapshotBounds.n}_"
+                pre.append(ast.Assign(targets=[ast.Name(id=nm, ctx=ast.Store())], value=a))
+                args.append(ast.Name(id=nm, ctx=ast.Load()))
+            else:
+                args.append(a)
+        if not pre:
+            return node
+        node.iter = ast.Call(func=node.iter.func, args=args, keywords=[])
+        return pre + [node]
+
+
+def generate_w3jkern(fns, gen_dir, write_if_changed):
+    import copy as _copy
+    path = "spherical/recursions/wigner3j.py"
+    tree = ast.parse(open(os.path.join(REPO, path), encoding="utf-8").read())
+    _SnapshotBounds.n = 0
+    _BreakFlags.n = 0
+    out = [W3J_HEADER]
+    # ---- float helpers -------------------------------------------------------------------------------------------------
+    fdA = find_function(tree, "A")
+    if [a.arg for a in fdA.args.args] != ["j", "j2", "j3", "m1"] or not (isinstance(fdA.body[-1], ast.Return) and ast.unparse(fdA.body[-1].value.func) == "math.sqrt"):
+        raise TranslationError("wigner3j.A: expected `return math.sqrt(<radicand>)`")
+    out.append("/-- `A(j, j2, j3, m1) = math.sqrt(<radicand>)`, the radicand in int64 arithmetic (`Gen.A_radicand_w`, generated) -/\n"
+               "def W3j_A (j j2 j3 m1 : Int) : α := Scalar.sqrt (Scalar.ofInt (A_radicand_w j j2 j3 m1) : α)\n")
+    if not any(isinstance(s, ast.Assign) and ast.unparse(s) == "Yf = B" for s in tree.body):
+        raise TranslationError("wigner3j: `Yf = B` not found")
+    fns_local = dict(fns)
+    fns_local["Yf"] = py2lean.Fn("B_ret", fns["B"].params, {}, None, path)
+    for nm, want in (("Xf", "j * A(j + 1, j2, j3, m1)"), ("Zf", "(j + 1) * A(j, j2, j3, m1)")):
+        fd = find_function(tree, nm)
+        ret = fd.body[-1]
+        if [a.arg for a in fd.args.args] != ["j", "j2", "j3", "m1"] or not isinstance(ret, ast.Return) or len([s for s in fd.body if not isinstance(s, ast.Expr)]) != 1:
+            raise TranslationError(f"wigner3j.{nm}: shape")
+        kt = KTr(fns_local, {}, set(), ast.parse("def f(j, j2, j3, m1):\n  pass").body[0])
+        kt.kinds = {"j": INT, "j2": INT, "j3": INT, "m1": INT}
+        kt.float_fns = {"A": "W3j_A"}
+        out.append(f"/-- `{nm}(j, j2, j3, m1) = {ast.unparse(ret.value)}` -/\ndef W3j_{nm} (j j2 j3 m1 : Int) : α := {kt.fexpr(ret.value)}\n")
+    # ---- calculate ------------------------------------------------------------------------------------------------------
+    fd = find_function(tree, "calculate", "Wigner3jCalculator")
+    if [a.arg for a in fd.args.args] != ["self", "j2", "j3", "m2", "m3"]:
+        raise TranslationError("Wigner3jCalculator.calculate: signature")
+    fsz = find_function(tree, "size", "Wigner3jCalculator")
+    if ast.unparse(fsz.body[-1]) != "return self._size":
+        raise TranslationError("Wigner3jCalculator.size")
+    body = [s for s in _copy.deepcopy(fd.body) if not (isinstance(s, ast.Expr) and isinstance(s.value, ast.Constant))]
+    # inline normalize / determine_signs
+    inl = {}
+    for nm, params in (("normalize", ["f", "j_min", "j_max"]), ("determine_signs", ["f", "j_min", "j_max", "j2", "j3", "m2", "m3"])):
+        g = find_function(tree, nm)
+        if [a.arg for a in g.args.args] != params:
+            raise TranslationError(f"wigner3j.{nm}: signature")
+        inl[nm] = (params, [s for s in g.body if not (isinstance(s, ast.Expr) and isinstance(s.value, ast.Constant))])
+
+    class Inl(ast.NodeTransformer):
+        def visit_Expr(self, node):
+            c = node.value
+            if isinstance(c, ast.Call) and isinstance(c.func, ast.Name) and c.func.id in inl:
+                params, b = inl[c.func.id]
+                if [ast.unparse(a) for a in c.args] != params or c.keywords:
+                    raise TranslationError(f"calculate: {ast.unparse(c)} (arguments must be the parameter names)")
+                return _copy.deepcopy(b)
+            return node
+    body = [y for s in body for y in (lambda r: r if isinstance(r, list) else [r])(Inl().visit(s))]
+    # views of the workspace
+    views = {}
+    keep = []
+    for s in body:
+        if isinstance(s, ast.Assign) and len(s.targets) == 1 and isinstance(s.targets[0], ast.Name):
+            t, v = s.targets[0].id, s.value
+            txt = ast.unparse(v)
+            if isinstance(v, ast.Subscript) and ast.unparse(v.value) == "self.workspace" and isinstance(v.slice, ast.Slice) and v.slice.step is None:
+                lo = v.slice.lower
+                hi = ast.unparse(v.slice.upper) if v.slice.upper is not None else None
+                lotxt = "0" if lo is None else ast.unparse(lo)
+                table = {"0": "self.size", "self.size": "2 * self.size", "2 * self.size": "3 * self.size", "3 * self.size": "4 * self.size"}
+                if table.get(lotxt) != hi:
+                    raise TranslationError(f"calculate: view {t} = {txt}")
+                views[t] = ast.Constant(value=0) if lo is None else ast.parse(lotxt.replace("self.size", "size")).body[0].value
+                continue
+            if isinstance(v, ast.Name) and v.id in views:
+                views[t] = views[v.id]
+                continue
+        keep.append(s)
+    body = keep
+    if set(views) != {"f", "sf", "rf", "F_minus", "F_plus"}:
+        raise TranslationError(f"calculate: views {sorted(views)}")
+
+    class V(ast.NodeTransformer):
+        def visit_Subscript(self, node):
+            node = self.generic_visit(node)
+            if isinstance(node.value, ast.Name) and node.value.id in views:
+                off = _copy.deepcopy(views[node.value.id])
+
+                def sh(e):
+                    return ast.BinOp(left=_copy.deepcopy(off), op=ast.Add(), right=e)
+                if isinstance(node.slice, ast.Slice):
+                    if node.slice.step is not None or node.slice.lower is None or node.slice.upper is None:
+                        raise TranslationError(f"calculate: slice {ast.unparse(node)}")
+                    sl = ast.Slice(lower=sh(node.slice.lower), upper=sh(node.slice.upper), step=None)
+                else:
+                    sl = sh(node.slice)
+                return ast.Subscript(value=ast.Name(id="workspace", ctx=ast.Load()), slice=sl, ctx=node.ctx)
+            if ast.unparse(node.value) == "self.workspace":
+                if ast.unparse(node.slice) != ":":
+                    raise TranslationError(f"calculate: {ast.unparse(node)}")
+                return ast.Subscript(value=ast.Name(id="workspace", ctx=ast.Load()),
+                                     slice=ast.Slice(lower=ast.Constant(value=0), upper=ast.parse("4 * size").body[0].value, step=None), ctx=node.ctx)
+            return node
+
+        def visit_Attribute(self, node):
+            if ast.unparse(node) == "self.size":
+                return ast.Name(id="size", ctx=ast.Load())
+            return self.generic_visit(node)
+
+        def visit_Return(self, node):
+            if node.value is not None and not (isinstance(node.value, ast.Name) and node.value.id == "f"):
+                raise TranslationError(f"calculate: {ast.unparse(node)}")
+            return ast.Return(value=None)
+
+        def visit_Raise(self, node):
+            # the exception flag: one cell past the array
+            return [ast.Assign(targets=[ast.Subscript(value=ast.Name(id="workspace", ctx=ast.Load()), slice=ast.parse("4 * size").body[0].value, ctx=ast.Store())],
+                               value=ast.Constant(value=1.0)), ast.Return(value=None)]
+
+        def visit_Constant(self, node):
+            if node.value is True:
+                return ast.Constant(value=1)
+            if node.value is False:
+                return ast.Constant(value=0)
+            return node
+    body = [y for s in body for y in (lambda r: r if isinstance(r, list) else [r])(V().visit(s))]
+    # boolean flags in conditions
+    flags = {s.targets[0].id for s in ast.walk(ast.Module(body=body, type_ignores=[])) if isinstance(s, ast.Assign) and isinstance(s.targets[0], ast.Name)
+             and isinstance(s.value, ast.Constant) and s.value.value in (0, 1) and s.targets[0].id.startswith("undefined_")}
+
+    class Bo(ast.NodeTransformer):
+        def cond(self, e):
+            if isinstance(e, ast.BoolOp):
+                return ast.BoolOp(op=e.op, values=[self.cond(v) for v in e.values])
+            if isinstance(e, ast.UnaryOp) and isinstance(e.op, ast.Not) and isinstance(e.operand, ast.Name) and e.operand.id in flags:
+                return ast.Compare(left=e.operand, ops=[ast.Eq()], comparators=[ast.Constant(value=0)])
+            if isinstance(e, ast.Name) and e.id in flags:
+                return ast.Compare(left=e, ops=[ast.NotEq()], comparators=[ast.Constant(value=0)])
+            return e
+
+        def visit_If(self, node):
+            node = self.generic_visit(node)
+            node.test = self.cond(node.test)
+            return node
+    body = [Bo().visit(s) for s in body]
+    body = _cps_returns(body, "calculate")
+    body = [y for s in body for y in (lambda r: r if isinstance(r, list) else [r])(_SnapshotBounds().visit(s))]
+    body = [y for s in body for y in (lambda r: r if isinstance(r, list) else [r])(_BreakFlags().visit(s))]
+    body = [y for s in body for y in (lambda r: r if isinstance(r, list) else [r])(_Deslice().visit(s))]
+    fdk = ast.parse("def Wigner3jCalculator_calculate(workspace, size, j2, j3, m2, m3):\n    pass\n").body[0]
+    fdk.body = body
+    ast.fix_missing_locations(fdk)
+    kt = KTr(fns_local, {}, set(), fdk)
+    kt.float_fns = {"Xf": "W3j_Xf", "Zf": "W3j_Zf"}
+    k, txt = kt.translate(lean_name="Wigner3jCalculator_calculate")
+    out.append("/-- `Wigner3jCalculator.calculate(j2, j3, m2, m3)` -/\n" + txt)
+    out.append("end\nend Gen\n")
+    write_if_changed(os.path.join(gen_dir, "W3jKern.lean"), "\n".join(out))
+    return {k.name: [(p, k.kinds[p]) for p in k.params]}
